@@ -209,7 +209,33 @@ def fam_inline():
     return out
 
 
-FAMILIES = {'lists': fam_lists, 'dispatch': fam_dispatch, 'macros': fam_macros, 'repeat': fam_repeat, 'ids': fam_ids,
+# ---- M: redefinition of the built-in definitions ----------------------------------------------
+def fam_redefs():
+    import json, os
+    path = os.path.join(os.path.dirname(os.path.abspath(__file__)), '..', 'coq', 'Gen', 'regex_table.json')
+    try:
+        with open(path) as f:
+            tbl = json.load(f)
+    except Exception:
+        tbl = {}
+    pats = [v[0] for k, v in sorted(tbl.items()) if k.startswith('replacements_default_')]
+    probe = ('<<#a>> <image:i.png|alt> <image:j.png> ![a](k.png) <j@k.lm|J> <j@k.lm> ^[n](u) [l](u) <u.v|cap> <!-- c --> <b>t</b> '
+             '<http://a.b> http://c.d/e &amp; x \\\nline `a\\` x_y ... \\<b> \\&amp;')
+    out = []
+    for p in pats:
+        for fl in ['', 'i', 'm', 'im']:
+            for repl in ['X', '[$1]', '<u>$$1</u>', '$1$2$3']:
+                d = "/%s/%s = '%s'" % (p, fl, repl)
+                out.append(H([call(d + '\n\n' + probe, safeMode=0, reset=True), call(probe), call(probe, safeMode=2), call(probe, reset=True)]))
+    quotes = ['*', '**', '_', '__', '`', '``', '~~', '=', '##']
+    qprobe = '*a* **b** _c_ __d__ `e` ``f`` ~~g~~ =h= ##i## \\*j*'
+    for q in quotes:
+        for d in ["%s = '<x>|</x>'" % q, "%s = '<y>||</y>'" % q, "%s = '|'" % q, "%s = '<z class=\"c\">|</z>'" % q]:
+            out.append(H([call(d + '\n\n' + qprobe, safeMode=0, reset=True), call(qprobe, safeMode=1), call(qprobe, reset=True)]))
+    return out
+
+
+FAMILIES = {'redefs': fam_redefs, 'lists': fam_lists, 'dispatch': fam_dispatch, 'macros': fam_macros, 'repeat': fam_repeat, 'ids': fam_ids,
             'options': fam_options, 'blockdefs': fam_blockdefs, 'attrs': fam_attrs, 'inline': fam_inline}
 
 _cache = {}
